@@ -304,23 +304,28 @@ def compactLogData (d : FileData) : FileData :=
 
 def dedupStr (l : List String) : List String := sortStr l
 
+/-- merged tag value: flag of the first element, series of every file (tombstones are not applied). -/
+def mergeVal (fs : List FileData) (n k v : String) (del : Bool) : TagValue :=
+  { deleted := del, series := fs.foldl (fun acc f => sunion acc (fileValSeries n k v f)) [] }
+
+def mergeKey (fs : List FileData) (n k : String) : TagKey :=
+  { deleted := (firstSome (fun f => (keyElem n k f).map (·.deleted)) fs).getD false,
+    values := (mergedKeyValues fs n k).map (fun p => (p.1, mergeVal fs n k p.1 p.2)) }
+
+def mergeMeas (fs : List FileData) (n : String) : Meas :=
+  { deleted := (firstSome (measFlag n) fs).getD false,
+    series := fsMeasSeries fs n,
+    keys := (dedupStr (fs.flatMap (fileKeys n))).map (fun k => (k, mergeKey fs n k)) }
+
+/-- `IndexFiles.buildSeriesIDSets`: start from the oldest file, apply the newer ones in turn. -/
+def mergeSets (fs : List FileData) : List Nat × List Nat :=
+  fs.reverse.foldl (fun (acc : List Nat × List Nat) f =>
+      (sunion (sdiff acc.1 f.tomb) f.sset, sdiff (sunion acc.2 f.tomb) f.sset)) ([], [])
+
 /-- `IndexFiles.CompactTo` on the contents of the files (newest first). -/
 def mergeData (fs : List FileData) : FileData :=
-  let names := dedupStr (fs.flatMap (fun f => f.mms.map (·.1)))
-  let mms := names.map (fun n =>
-    let keys := dedupStr (fs.flatMap (fileKeys n))
-    let tks := keys.map (fun k =>
-      let kdel := (firstSome (fun f => (keyElem n k f).map (·.deleted)) fs).getD false
-      let vals := (mergedKeyValues fs n k).map (fun (v, del) =>
-        (v, ({ deleted := del,
-               series := fs.foldl (fun acc f => sunion acc (fileValSeries n k v f)) [] } : TagValue)))
-      (k, ({ deleted := kdel, values := vals } : TagKey)))
-    (n, ({ deleted := (firstSome (measFlag n) fs).getD false,
-           series := fsMeasSeries fs n, keys := tks } : Meas)))
-  -- buildSeriesIDSets: start from the oldest file, apply the newer ones in turn
-  let sets := fs.reverse.foldl (fun (acc : List Nat × List Nat) f =>
-      (sunion (sdiff acc.1 f.tomb) f.sset, sdiff (sunion acc.2 f.tomb) f.sset)) ([], [])
-  { mms := mms, sset := sets.1, tomb := sets.2 }
+  { mms := (dedupStr (fs.flatMap (fun f => f.mms.map (·.1)))).map (fun n => (n, mergeMeas fs n)),
+    sset := (mergeSets fs).1, tomb := (mergeSets fs).2 }
 
 /-- replace the oldest non-active log file (the last log in the list, not the head). -/
 def compactOldestLog : List File → List File
@@ -336,36 +341,31 @@ def compactOldestLog : List File → List File
           else none
     active :: (go rest).getD rest
 
-/-- `FileSet.LastContiguousIndexFilesByLevel(level)` as positions from the end: walks from the
-    oldest file, skipping files above the level, stopping at the first below it. Returns the
-    indexes (into `files`) selected, ascending. -/
-def lastContiguous (files : List File) (level : Nat) : List Nat :=
-  let n := files.length
-  let rec go (i : Nat) (rev : List File) (acc : List Nat) : List Nat :=
-    match rev with
-    | [] => acc
-    | f :: rest =>
-      if level < f.level then go (i - 1) rest acc
-      else if level > f.level then acc
-      else go (i - 1) rest (i :: acc)
-  go (n - 1) files.reverse []
+/-- `FileSet.LastContiguousIndexFilesByLevel(level)` followed by `files[len-2:]` and
+    `MustReplace`, on the file list reversed (oldest first): walking from the oldest file,
+    files above the level are skipped, a file below it ends the search; the first file of the
+    level is merged with the next newer file if that one is of the level too. (If it is of a
+    higher level the real code would select non-adjacent files and `MustReplace` would panic;
+    levels are ordered along the list, so this does not arise; the model then does nothing.) -/
+def mergeOldestTwo (level : Nat) : List File → Option (List File)
+  | [] => none
+  | b :: rest =>
+    if level < b.level then (mergeOldestTwo level rest).map (b :: ·)
+    else if b.level < level then none
+    else
+      match rest with
+      | a :: rest' =>
+        if a.level = level then
+          some ({ isLog := false, level := level + 1, data := mergeData [a.data, b.data] } :: rest')
+        else none
+      | [] => none
 
-/-- `compactToLevel` on the last two selected files, if they are adjacent (`MustReplace`). -/
+/-- `compactToLevel` on the two oldest files of `level`. -/
 def compactLevelFiles (files : List File) (level : Nat) : List File :=
   if level < 1 ∨ level > 6 then files else
-  let sel := lastContiguous files level
-  if sel.length < 2 then files else
-  let sel := sel.drop (sel.length - 2)
-  match sel with
-  | [i, j] =>
-    if j ≠ i + 1 then files   -- MustReplace would panic; never reached (levels are ordered)
-    else
-      match files[i]?, files[j]? with
-      | some a, some b =>
-        let merged : File := { isLog := false, level := level + 1, data := mergeData [a.data, b.data] }
-        files.take i ++ [merged] ++ files.drop (j + 1)
-      | _, _ => files
-  | _ => files
+  match mergeOldestTwo level files.reverse with
+  | some r => r.reverse
+  | none => files
 
 /-- one step of what `Partition.compact` schedules: the newest non-active log file is
     compacted; if there is none, the lowest level with two selectable files is merged. -/
@@ -383,7 +383,7 @@ def settleStep (files : List File) : Option (List File) :=
   match compactNewestLog files with
   | some fs => some fs
   | none =>
-    ([1, 2, 3, 4, 5, 6].find? (fun l => (lastContiguous files l).length ≥ 2)).map
+    ([1, 2, 3, 4, 5, 6].find? (fun l => (mergeOldestTwo l files.reverse).isSome)).map
       (fun l => compactLevelFiles files l)
 
 /-- the partition's background compaction run to its fixpoint (what happens after `Open`,
